@@ -48,10 +48,12 @@ namespace rkcommon {
       }
 
      private:
-      // declaration before taskImpl: ensure initialization before task finishes
+      // declaration before taskImpl: ensure initialization before the task
+      // (which may start, or even run to completion, inside taskImpl's
+      // constructor) assigns the result and sets the flag
       std::atomic<bool> jobFinished{false};
-      detail::AsyncTaskImpl<std::function<void()>> taskImpl;
       T retValue;
+      detail::AsyncTaskImpl<std::function<void()>> taskImpl;
     };
 
   }  // namespace tasking
